@@ -5,7 +5,8 @@
    refs and grafts, and that `rev-parse --git-dir` resolves worktrees, GIT_DIR
    and -C, is git's behaviour: observed on real repositories, not proved. *)
 From Coq Require Import String.
-From GS Require Import GoSem Text Options Protocol ProtocolProofs.
+From GS Require Import GoSem Text Options Protocol ProtocolProofs CmdsBridge.
+From GSGen Require Import CmdsGen.
 
 Theorem C13_flags : forall ngroups st roots i, In i (trace ngroups st roots) ->
   i_kind i = KGitDir \/ (i_noreplace i = true /\ i_env i = true).
@@ -17,3 +18,32 @@ Theorem C13_gitdir_first : forall ngroups st roots,
   exists rest, trace ngroups st roots = inv_of KGitDir :: map inv_of rest /\ Forall not_gitdir rest.
 Proof. exact gitdir_first. Qed.
 Print Assumptions C13_gitdir_first.
+
+(* ---- tie T for the command lines (CmdsBridge.v): gen/CmdsGen.v is regenerated on every run from every call of GitCommand /
+   exec.Command in the non-test sources ---- *)
+
+(* the commands the program can run are exactly the invocations of the protocol model, argument for argument *)
+Theorem C13_commands_are_the_protocol : covers = true.
+Proof. exact commands_are_the_protocol. Qed.
+Print Assumptions C13_commands_are_the_protocol.
+
+(* only the initial `git -C <path> rev-parse --git-dir` is not built by GitCommand *)
+Theorem C13_only_gitdir_bypasses :
+  forall c, In c git_commands -> via_gitcommand c = false -> matches (args_of c) (model_argv KGitDir) = true.
+Proof. exact only_gitdir_bypasses. Qed.
+Print Assumptions C13_only_gitdir_bypasses.
+
+(* every other command gets --no-replace-objects AND -c core.useReplaceRefs=false (fix a631075) in front of its arguments ... *)
+Theorem C13_globals_disable_replace :
+  existsb (beqb (str "--no-replace-objects")) git_globals = true /\
+  has_setting git_globals (str "core.useReplaceRefs=false") = true /\
+  dash_c_ok git_globals = true /\
+  git_globals = [str "--no-replace-objects"; str "-c"; str "core.useReplaceRefs=false"; str "-c"; str "advice.graftFileDeprecated=false"].
+Proof. exact globals_disable_replace. Qed.
+Print Assumptions C13_globals_disable_replace.
+
+(* ... and GIT_DIR=<resolved> and GIT_GRAFT_FILE=<null device> appended after the inherited environment (the last entry wins) *)
+Theorem C13_env_sets_gitdir_and_grafts :
+  git_env = [P (str "GIT_DIR=") (str "repo.gitDir"); P (str "GIT_GRAFT_FILE=") (str "os.DevNull")].
+Proof. exact env_sets_gitdir_and_grafts. Qed.
+Print Assumptions C13_env_sets_gitdir_and_grafts.
